@@ -174,6 +174,20 @@ new.append(entry("C17",
     not_decided=["DeviceList (range over a map: no iterator model in the engine)", "the routing function reads only the client's own map: follows from NewUHPPOTE's `own`/`client` clauses and the frame obligations, not stated as a separate lemma"],
     explanation="Frame obligations of every API operation (no write to memory that existed at entry: card.Doors, profile maps, task maps, readers, IP slices), Device.Clone / Card.Clone return equal values whose slices/maps are fresh, NewUHPPOTE stores a clone of every device in a fresh map of the client, and decoded slices (IPv4, MAC) share no memory with the message buffer (noalias clauses of the decode lemmas; result maps of GetCard*/GetTimeProfile are fresh)."))
 
+
+ROLES = ["Bind", "Broadcast", "Listen", "Controller"]
+new.append(entry("C15",
+    functions=["types.Parse%sAddr" % r for r in ROLES] + ["types.lemma%sAddrText" % r for r in ROLES],
+    scope=[r"^types\.Parse\w+Addr#", r"^types\.lemma\w+AddrText#"],
+    pinned_file="pins_types.json", pinned_labels=["contract", "macro"],
+    replay=[{"match": "types.", "driver": "types_addr", "pkg": "types", "case": "all"}],
+    assumptions=["strings are abstract; the grammar of a.b.c.d[:port] is carried by the predicates addr.isQuadPort / addr.isQuad / addr.hasQuad with the values addr.quadOf / addr.portOf (spec/addr.spec)",
+                 "assumed about the two unanchored regular expressions of the parsers: a full address:port string matches the first pattern; a bare dotted quad matches the second but not the first; a string without a dotted quad matches neither (axiom addr.regex); a changed pattern has no model, so nothing can be proved through it",
+                 "netip.ParseAddrPort / ParseAddr return exactly the address (and port) of a string in the dotted-quad[:port] form and an arbitrary result otherwise; fmt.Sprintf(\"%v\") of a netip.Addr / AddrPort holding an IPv4 address is its dotted-quad[:port] text"],
+    not_decided=["strings that contain a dotted quad but are not exactly of the form a.b.c.d[:port] (text around the quad): the statement only requires the two exact forms to be accepted and quad-free strings to be rejected",
+                 "Set / MarshalJSON / UnmarshalJSON of the address types (C14)"],
+    explanation="Per role (bind, broadcast, listen, controller): a string of the form a.b.c.d:port is accepted with exactly that address and port iff the port satisfies the role's rule (bind: not 60000; broadcast, controller: not 0; listen: neither 0 nor 60000), a bare a.b.c.d gets the default port (0 / 60000 / 60000; rejected for listen), a string without a dotted quad is rejected; formatting an accepted address and parsing it again returns the same address and port (lemma functions over the parser contracts)."))
+
 ids = {e["id"] for e in new}
 out = [p for p in props if p["id"] not in ids] + new
 out.sort(key=lambda p: p["id"])
